@@ -70,6 +70,26 @@ fn pending_mask() -> u8 {
     m
 }
 
+/// a signal the application itself keeps blocked and that is never given to the source
+const APP_SIG: i32 = libc::SIGTTOU;
+
+fn app_block(on: bool) {
+    unsafe {
+        let mut set: libc::sigset_t = std::mem::zeroed();
+        libc::sigemptyset(&mut set);
+        libc::sigaddset(&mut set, APP_SIG);
+        libc::pthread_sigmask(if on { libc::SIG_BLOCK } else { libc::SIG_UNBLOCK }, &set, std::ptr::null_mut());
+    }
+}
+
+fn app_blocked() -> bool {
+    unsafe {
+        let mut cur: libc::sigset_t = std::mem::zeroed();
+        libc::pthread_sigmask(libc::SIG_BLOCK, std::ptr::null(), &mut cur);
+        libc::sigismember(&cur, APP_SIG) == 1
+    }
+}
+
 fn unblock_all() {
     unsafe {
         let mut set: libc::sigset_t = std::mem::zeroed();
@@ -110,8 +130,10 @@ struct Outcome {
     mask_changes_with_pending: u64,
 }
 
-fn run_history(ops: &[SOp], nsig: usize) -> Outcome {
+fn run_history(ops: &[SOp], nsig: usize, with_app: bool) -> Outcome {
     let mut out = Outcome { alarms: vec![], reported: 0, class: 0, mask_changes_with_pending: 0 };
+    // every other history runs with a signal blocked by the application itself: the source must leave it alone
+    app_block(with_app);
     for c in COUNTS.iter() {
         c.store(0, Ordering::SeqCst);
     }
@@ -264,6 +286,9 @@ fn run_history(ops: &[SOp], nsig: usize) -> Outcome {
             alarm(&mut out, "mask_exact", c, format!("after {}: blocked {:?}, configured {:?}", desc, sigs_of(blocked), sigs_of(configured)));
             let _ = missing;
         }
+        if with_app && !app_blocked() {
+            alarm(&mut out, "mask_exact", "application-blocked-signal-unblocked", format!("after {}: a signal the application had blocked itself (never configured in the source) is no longer blocked", desc));
+        }
         for i in 0..nsig {
             let got = COUNTS[SIGS[i].1 as usize].load(Ordering::SeqCst);
             if got > handler_max[i] {
@@ -305,6 +330,7 @@ fn run_history(ops: &[SOp], nsig: usize) -> Outcome {
     }
     // back to the pristine state for the next history
     unblock_all();
+    app_block(false);
     out.class = fnv(&class_parts);
     out
 }
@@ -328,13 +354,13 @@ fn gen_history(rng: &mut Rng, nsig: usize, len: usize) -> Vec<SOp> {
     v
 }
 
-fn shrink(ops: &[SOp], nsig: usize, clause: &str) -> Vec<SOp> {
+fn shrink(ops: &[SOp], nsig: usize, with_app: bool, clause: &str) -> Vec<SOp> {
     let mut cur = ops.to_vec();
     let mut i = 0;
     while i < cur.len() {
         let mut cand = cur.clone();
         cand.remove(i);
-        let o = run_history(&cand, nsig);
+        let o = run_history(&cand, nsig, with_app);
         if o.alarms.iter().any(|a| a.clause == clause) {
             cur = cand;
         } else {
@@ -356,8 +382,9 @@ fn main() {
         let v: serde_json::Value = serde_json::from_str(&std::fs::read_to_string(path).expect("replay file")).expect("json");
         let ops: Vec<SOp> = serde_json::from_value(v["replay"]["ops"].clone()).expect("ops");
         let nsig = v["replay"]["nsig"].as_u64().unwrap_or(6) as usize;
-        println!("replaying {:?}", ops);
-        let o = run_history(&ops, nsig);
+        let with_app = v["replay"]["app_blocked_signal"].as_bool().unwrap_or(false);
+        println!("replaying {:?} (application-blocked signal: {})", ops, with_app);
+        let o = run_history(&ops, nsig, with_app);
         for a in &o.alarms {
             println!("alarm: {} / {} :: {}", a.clause, a.culprit, a.detail);
             res.violations.push(Violation { prop: args.prop.clone(), clause: a.clause.clone(), culprit: a.culprit.clone(), detail: a.detail.clone(), replay: v["replay"].clone() });
@@ -381,7 +408,8 @@ fn main() {
         if i % 256 == 0 {
             mark_case(&args.out, case, "sig");
         }
-        let o = run_history(&ops, nsig);
+        let with_app = case % 2 == 1;
+        let o = run_history(&ops, nsig, with_app);
         res.evaluations += 1;
         res.ev("signals_reported", o.reported);
         res.ev("mask_changes_with_pending_signals", o.mask_changes_with_pending);
@@ -396,8 +424,8 @@ fn main() {
             let sig = format!("{}/{}", a.clause, a.culprit);
             res.cov(&format!("alarm:{}", sig), 1);
             if seen.insert(sig) && res.violations.len() < 10 {
-                let small = shrink(&ops, nsig, &a.clause);
-                let o2 = run_history(&small, nsig);
+                let small = shrink(&ops, nsig, with_app, &a.clause);
+                let o2 = run_history(&small, nsig, with_app);
                 let a2 = o2.alarms.iter().find(|x| x.clause == a.clause).cloned().unwrap_or_else(|| a.clone());
                 seen.insert(format!("{}/{}", a2.clause, a2.culprit));
                 res.violations.push(Violation {
@@ -405,7 +433,7 @@ fn main() {
                     clause: a2.clause.clone(),
                     culprit: a2.culprit.clone(),
                     detail: format!("{} [case {}, history {:?}]", a2.detail, case, small),
-                    replay: json!({"engine": "sig", "nsig": nsig, "ops": small}),
+                    replay: json!({"engine": "sig", "nsig": nsig, "ops": small, "app_blocked_signal": with_app}),
                 });
             }
         }
